@@ -83,3 +83,67 @@ def glu_mirror_rule(chk, cid, prog, cfgname, units=None, floor=100):
         from ..run import AnalysisBroken
         raise AnalysisBroken('glu_mirror_rule: %d mirror loads/stores seen, floor %d' % (n, floor))
     return n
+
+
+def drop_row_alignment(chk, cid, prog, p, cfgname):
+    """ilu_?drop_row removes a row of a supernode by moving the last kept row into its place.  The numerical values (rows of lusup[], moved with
+    ?copy_/?swap_ at stride m) and the row subscripts (lsub[]) are parallel arrays: in every block that moves value row SRC to value row DST
+    the subscript of SRC must be moved to DST as well - same two offsets relative to xlusup_first / xlsub_first."""
+    from ..facts import strip, callee_name, canon, loc
+    from ..ir import pretty
+    f = prog.func('ilu_%sdrop_row' % p)
+    if f is None:
+        from ..run import AnalysisBroken
+        raise AnalysisBroken('ilu_%sdrop_row not found' % p)
+    chk.saw(unit=f.unit, func=f.unit + ':' + f.name)
+    copy, swap = p + 'copy_', p + 'swap_'
+    n = 0
+
+    def off(e, base):
+        """offset text of  &arr[base + OFF]  /  arr[base + OFF]"""
+        e = strip(e)
+        if e.k == 'Unary' and e.a['op'] == '&':
+            e = strip(e.c[0])
+        if e.k != 'Index':
+            return None
+        s = strip(e.c[1])
+        if s.k == 'Binary' and s.a['op'] == '+' and strip(s.c[0]).k == 'Ref' and strip(s.c[0]).a.get('name') == base:
+            return canon(s.c[1], ids=False)
+        return None
+
+    def blocks(x):
+        if x.k == 'Block':
+            yield x
+        for c in x.c:
+            for b in blocks(c):
+                yield b
+    for b in blocks(f.body):
+        # moves of value rows anywhere below this block, subscript moves directly in it
+        subs = [st for st in b.c if strip(st).k == 'Assign' and strip(strip(st).c[0]).k == 'Index'
+                and strip(strip(strip(st).c[0]).c[0]).a.get('name') == 'lsub' and off(strip(st).c[0], 'xlsub_first') is not None]
+        if not subs:
+            continue
+        moves = set()
+        for st in b.c:
+            for y in st.walk():
+                if y.k == 'Call' and callee_name(y) in (copy, swap) and len(y.c) == 6:
+                    a, d = off(y.c[2], 'xlusup_first'), off(y.c[4], 'xlusup_first')
+                    if a is not None and d is not None:
+                        moves.add((a, d))
+        if not moves:
+            continue
+        for st in subs:
+            s2 = strip(st)
+            n += 1
+            d, a = off(s2.c[0], 'xlsub_first'), off(s2.c[1], 'xlsub_first')
+            inst = '%s:subscript-follows-values@%s' % (f.name, 'basic' if n == 1 else 'secondary' if n == 2 else str(n))
+            if (a, d) in moves and all(m == (a, d) for m in moves):
+                chk.ok(cid, inst, sample=pretty(s2)[:70])
+            else:
+                chk.violate(cid, inst, loc(f, s2), f.name,
+                            'the values of row %s are moved to row %s of the supernode, but `%s` moves the subscript from %s to %s: the row list and the '
+                            'values of L no longer describe the same rows' % (sorted(moves)[0][0], sorted(moves)[0][1], pretty(s2)[:60], a, d), cfgname=cfgname)
+    if n < 2:
+        from ..run import AnalysisBroken
+        raise AnalysisBroken('%s: %d row-removal blocks found, expected 2' % (f.name, n))
+    return n
